@@ -107,6 +107,8 @@ Justify(len, val, right) ==
 
 \* statements: [op: "let", c, e] | [op: "midset", c, s, n, e] | [op: "lset"|"rset", c, e] | [op: "swap", c, d]
 \*             | [op: "erase"|"dim", arr] | [op: "fre"|"fre0"|"nop"] | [op: "clear", mem, stack]
+\* ERASE may name two arrays (field arr2): the cells of both read as empty afterwards
+Erased(a) == Arrays[a.arr] \cup (IF "arr2" \in DOMAIN a THEN Arrays[a.arr2] ELSE {})
 \* Do: the reference effect.  err = the error the semantics demands (0: none); need = string bytes for MayRunOut
 Do(ref, a) ==
     CASE a.op = "let" ->
@@ -120,7 +122,7 @@ Do(ref, a) ==
            LET r == Eval(ref, a.e) IN
            [ref |-> IF r.ok THEN [ref EXCEPT ![a.c] = Justify(Len(@), r.v, a.op = "rset")] ELSE ref, err |-> r.err, need |-> Need(ref, a.e)]
       [] a.op = "swap"  -> [ref |-> [ref EXCEPT ![a.c] = ref[a.d], ![a.d] = ref[a.c]], err |-> 0, need |-> 0]
-      [] a.op = "erase" -> [ref |-> [c \in DOMAIN ref |-> IF c \in Arrays[a.arr] THEN <<>> ELSE ref[c]], err |-> 0, need |-> 0]
+      [] a.op = "erase" -> [ref |-> [c \in DOMAIN ref |-> IF c \in Erased(a) THEN <<>> ELSE ref[c]], err |-> 0, need |-> 0]
       [] a.op = "clear" -> [ref |-> [c \in DOMAIN ref |-> <<>>], err |-> 0, need |-> 0]
       [] OTHER -> [ref |-> ref, err |-> 0, need |-> 0]
 
@@ -135,7 +137,7 @@ CodeAfter(code, ref, a, prog) ==
       [] a.op = "midset" -> LET r == Eval(ref, a.e) IN
                             IF r.ok /\ Min(Min(a.n, Len(r.v)), Len(ref[a.c]) - (a.s - 1)) > 0 THEN code \ {a.c} ELSE code
       [] a.op = "swap"  -> (code \ {a.c, a.d}) \cup (IF a.c \in code THEN {a.d} ELSE {}) \cup (IF a.d \in code THEN {a.c} ELSE {})
-      [] a.op = "erase" -> code \ Arrays[a.arr]
+      [] a.op = "erase" -> code \ Erased(a)
       [] a.op = "clear" -> {}
       [] OTHER -> code
 
@@ -312,7 +314,7 @@ ApplyI(m, a) ==
                val == Deref(r.m, HPtr(r.m, r.h))
            IN [m |-> SetCell(WriteStr(r.m, tp, Justify(tp[1], val, a.op = "rset")), a.c, tp), err |-> 0, gc |-> r.gc]
       [] a.op = "swap"  -> [m |-> [m EXCEPT !.ptr[a.c] = m.ptr[a.d], !.ptr[a.d] = m.ptr[a.c]], err |-> 0, gc |-> 0]
-      [] a.op = "erase" -> [m |-> [m EXCEPT !.ptr = [c \in Cells |-> IF c \in Arrays[a.arr] THEN NullPtr ELSE @[c]]], err |-> 0, gc |-> 0]
+      [] a.op = "erase" -> [m |-> [m EXCEPT !.ptr = [c \in Cells |-> IF c \in Erased(a) THEN NullPtr ELSE @[c]]], err |-> 0, gc |-> 0]
       [] a.op = "fre" ->            \* FRE(""): the literal is stored, then an unconditional collection
            LET s == Store(ResetTemps(m), <<>>, <<>>) IN
            IF s.err # 0 THEN [m |-> s.m, err |-> s.err, gc |-> s.gc]
